@@ -194,6 +194,14 @@ func runC20(c *eng.Ctx) {
 	// ---------------------------------------------------------------- (4) GUARD-hardlink
 	hardlinkTest := func(fn *ssa.Function, entryIs func(ssa.Value) bool) map[eng.Edge]bool {
 		return eng.PassEdges(fn, func(cond ssa.Value) (bool, bool) {
+			if call, isCall := cond.(*ssa.Call); isCall && eng.CalleeIs(call, "bytes.Equal") {
+				for _, a := range call.Call.Args {
+					if eng.MentionsField(a, "Entry.HardLinkId") && entryIs(eng.FieldBase(eng.Unwrap(a))) {
+						return true, true // same identity as the new version
+					}
+				}
+				return false, false
+			}
 			b, ok := cond.(*ssa.BinOp)
 			if !ok {
 				return false, false
@@ -206,6 +214,21 @@ func runC20(c *eng.Ctx) {
 						return true, true
 					case token.NEQ, token.GTR:
 						return true, false
+					}
+				}
+			}
+			// bytes.Equal(e.HardLinkId, <new version>.HardLinkId): the new version is the same identity, what it drops is
+			// garbage for every name
+			if call, isCall := b.X.(*ssa.Call); isCall && eng.CalleeIs(call, "bytes.Equal", "bytes.Compare") {
+				mentionsOld := false
+				for _, a := range call.Call.Args {
+					if eng.MentionsField(a, "Entry.HardLinkId") && entryIs(eng.FieldBase(eng.Unwrap(a))) {
+						mentionsOld = true
+					}
+				}
+				if mentionsOld && eng.CalleeIs(call, "bytes.Compare") {
+					if k, isK := eng.ConstInt(b.Y); isK && k == 0 {
+						return true, b.Op == token.EQL
 					}
 				}
 			}
